@@ -55,20 +55,12 @@ func (d *Driver) getServerCapabilities() ([]byte, error) {
 	go func() {
 		defer close(cr)
 
+		// the caller below takes exactly one result, whatever happened: send exactly one (sending
+		// a second one after an error leaked this goroutine, sending none when the read finished
+		// just as the timer expired handed the caller a nil result)
 		b, err := d.Channel.ReadUntilPrompt(ctx)
-		if err != nil {
-			cr <- &result{b: b, err: err}
-		}
 
-		if ctx.Err() != nil {
-			// timer expired, we're already done, nobody will be listening for our send anyway
-			return
-		}
-
-		cr <- &result{
-			b:   b,
-			err: nil,
-		}
+		cr <- &result{b: b, err: err}
 	}()
 
 	r := <-cr
